@@ -357,7 +357,9 @@ def accepts(name):
 def describe(_):
     return {n: dict(kinds=a['kinds'], seeds=a['seeds'], equiv=a['equiv'], deterministic=a['deterministic'],
                     seeded=a['seeded'], exact=a['exact'], accepts=accepts(n), parallel=a['parallel'],
-                    has_force=(not n.startswith('GNNClassifier') and 'force_bipartite' in inspect.signature(a['cls'].fit if a['cls'] is not None else a['fn']).parameters)) for n, a in ALGOS.items()}
+                    has_force=(not n.startswith('GNNClassifier') and 'force_bipartite' in inspect.signature(a['cls'].fit if a['cls'] is not None else a['fn']).parameters),
+                    init_params=(sorted(p for p in inspect.signature(a['cls'].__init__).parameters if p != 'self') if a['cls'] is not None else []))
+            for n, a in ALGOS.items()}
 
 
 def run(args):
